@@ -221,6 +221,61 @@ theorem code_stop_closes (ports : List Nat) (as : List BridgeAct) :
   obtain ⟨_, _, h3⟩ := Proofs.LifeC.run_refines as (bridgeInitC ports) (Proofs.LifeC.cinv_init ports)
   exact Proofs.LifeC.stop_closes_all _ h3
 
+/-- A START THAT FAILS AT ANY BIND FOR ANY REASON (the task is cancelled while it is suspended there, or the bind raises an error of
+    whatever class): whichever configured port `p` it is and however many ports the loop had bound before it, after the
+    `except BaseException` clause exactly the transports that were open before the call are open, the flag is what it was, and the
+    call raises -/
+theorem code_start_failing_at (c : BridgeC) (h : Proofs.LifeC.CInv c) (p : Nat) (hp : p ∈ c.ports) :
+    (startFailingAt c p).2 = .raiseOSError ∧ (startFailingAt c p).1.openT = c.openT ∧ (startFailingAt c p).1.running = c.running := by
+  unfold startFailingAt
+  by_cases hf : c.free p = true
+  · simp only [hf, if_true]
+    have hocc : bridgeStepC c (.occupy p) = ({ c with others := p :: c.others }, .ok) := by simp [bridgeStepC, hf]
+    obtain ⟨_, _, hinv1⟩ := Proofs.LifeC.step_refines c (.occupy p) h (Proofs.LifeC.cinv_ports c h)
+    rw [hocc] at hinv1 ⊢
+    simp only []
+    generalize hc1 : ({ c with others := p :: c.others } : BridgeC) = c1 at hinv1 ⊢
+    have hports : c1.ports = c.ports := by rw [← hc1]
+    have hopen : c1.openT = c.openT := by rw [← hc1]
+    have hrun : c1.running = c.running := by rw [← hc1]
+    have hnotfree : c1.free p = false := by rw [← hc1]; simp [BridgeC.free]
+    -- the start fails: the abstract machine sees a configured port that is not free
+    have hfail : (bridgeStepC c1 .start).2 = .raiseOSError := by
+      rw [(Proofs.LifeC.step_refines c1 .start hinv1 (Proofs.LifeC.cinv_ports c1 hinv1)).1]
+      have hfun : portFree c1.abs = c1.free := by
+        funext q; simp [BridgeC.abs, BridgeC.free, portFree, BridgeC.openPorts]
+      have hall : c1.abs.ports.all (portFree c1.abs) = false := by
+        rw [hfun]
+        apply Bool.eq_false_iff.mpr
+        intro hall
+        have := List.all_eq_true.mp hall p (by simpa [BridgeC.abs, hports] using hp)
+        rw [hnotfree] at this; cases this
+      simp [bridgeStep, hall]
+    obtain ⟨ho, hr⟩ := code_failed_start c1 hinv1 hfail
+    refine ⟨hfail, ?_, ?_⟩
+    · have : (bridgeStepC (bridgeStepC c1 .start).1 (.release p)).1.openT = (bridgeStepC c1 .start).1.openT := rfl
+      rw [this, ho, hopen]
+    · have : (bridgeStepC (bridgeStepC c1 .start).1 (.release p)).1.running = (bridgeStepC c1 .start).1.running := rfl
+      rw [this, hr, hrun]
+  · simp only [hf, Bool.false_eq_true, if_false]
+    have hnf : c.free p = false := by simpa using hf
+    have hfail : (bridgeStepC c .start).2 = .raiseOSError := by
+      rw [(Proofs.LifeC.step_refines c .start h (Proofs.LifeC.cinv_ports c h)).1]
+      have hfun : portFree c.abs = c.free := by
+        funext q; simp [BridgeC.abs, BridgeC.free, portFree, BridgeC.openPorts]
+      have hall : c.abs.ports.all (portFree c.abs) = false := by
+        rw [hfun]
+        apply Bool.eq_false_iff.mpr
+        intro hall
+        have := List.all_eq_true.mp hall p (by simpa [BridgeC.abs] using hp)
+        rw [hnf] at this; cases this
+      simp [bridgeStep, hall]
+    obtain ⟨ho, hr⟩ := code_failed_start c h hfail
+    exact ⟨hfail, ho, hr⟩
+
+/- the same with `except Exception:` in place of `except BaseException:` is the model without the rollback for a cancellation — see
+   `startNoRollback` below: the ports bound before the failing one stay bound -/
+
 /- the defect repaired by commit baa51b5 (F6), as the code-level model without the rollback: the first port stays bound although
    the start failed and the bridge says it is not running -/
 def startNoRollback (c : BridgeC) : List Nat → BridgeC × Out
